@@ -8,7 +8,8 @@ from stix2patterns.validator import run_validator
 
 from ..custom import _custom_object_builder
 from ..exceptions import (
-    InvalidValueError, PropertyPresenceError, STIXDeprecationWarning,
+    DuplicateRegistrationError, InvalidValueError, PropertyPresenceError,
+    STIXDeprecationWarning,
 )
 from ..properties import (
     BooleanProperty, EnumProperty, ExtensionsProperty, FloatProperty,
@@ -16,6 +17,7 @@ from ..properties import (
     OpenVocabProperty, PatternProperty, ReferenceProperty, StringProperty,
     TimestampProperty, TypeProperty,
 )
+from ..registry import class_for_type
 from ..utils import NOW
 from .base import _DomainObject
 from .common import (
@@ -865,6 +867,10 @@ def CustomObject(type='x-custom-type', properties=None, extension_name=None, is_
                 raise ValueError(
                     "Invalid extension name '%s': must be the id of an "
                     "extension definition" % extension_name,
+                )
+            if class_for_type(extension_name, '2.1', 'extensions'):
+                raise DuplicateRegistrationError(
+                    "Extension", extension_name,
                 )
             cls.with_extension = extension_name
 
